@@ -377,3 +377,30 @@ func verifHashAgree(a, b Object) bool {
 
 // goTypeRegistry / typeConverters: guarded by goTypeMutex (guard obligations in contracts_c05_verif.go).
 //@ scan[C09.globals.object] C09 pkgglobals github.com/risor-io/risor/object: goTypeRegistry<-newGoType typeConverters<-SetTypeConverter typeConverters<-createTypeConverter
+
+// ---- C16: slice bounds --------------------------------------------------------------------------------------------
+// ResolveIntSlice: negative bounds count from the end; the accepted range is 0 <= start <= stop <= size with
+// start < size (an empty slice at the very end is rejected); everything else is an error, never a clamp.
+//@ func ResolveIntSlice
+//@ props C16
+//@ safety
+//@ requires size >= 0
+//@ assume[slice.bounds.wf] (slice.Start != nil ==> ref(slice.Start) != nil) && (slice.Stop != nil ==> ref(slice.Stop) != nil)
+//@ modifies nothing
+//@ let s0 = ite(slice.Start == nil, 0, slice.Start.(*Int).value)
+//@ let e0 = ite(slice.Stop == nil, size, slice.Stop.(*Int).value)
+//@ let ns = ite(s0 < 0, size + s0, s0)
+//@ let ne = ite(e0 < 0, size + e0, e0)
+//@ let typed = (slice.Start == nil || typeof(slice.Start) == *Int) && (slice.Stop == nil || typeof(slice.Stop) == *Int)
+//@ ensures[C16.slice.ok] typed ==> (err == nil) == (0 <= ns && 0 <= ne && ns <= ne && ns <= size - 1 && ne <= size)
+//@ ensures[C16.slice.value] err == nil ==> typed && start == ns && stop == ne && 0 <= start && start <= stop && stop <= size
+//@ ensures[C16.slice.type] !typed ==> err != nil
+
+// List.GetSlice: a fresh list holding exactly the elements of the resolved range, in order; the original is not touched.
+//@ func (*List).GetSlice
+//@ props C16
+//@ safety
+//@ requires ls != nil
+//@ modifies nothing
+//@ ensures[C16.getslice.copy] result1 == nil ==> typeof(result0) == *List && ref(result0) != nil && fresh(result0) && fresh(result0.(*List).items) && exists(a, 0, len(ls.items) + 1, exists(b, a, len(ls.items) + 1, len(result0.(*List).items) == b - a && forall(k, 0, b - a, result0.(*List).items[k] == ls.items[a + k])))
+//@ ensures[C16.getslice.err] result1 != nil ==> result0 == nil
